@@ -847,6 +847,33 @@ impl PreferenceManager {
 }
 
 
+#[cfg(mathcat_verif)]
+/// Verification hooks (compiled only with `--cfg mathcat_verif`)
+pub mod verif {
+    use super::*;
+
+    /// Both preference maps as (map, name, yaml type, value), sorted.
+    pub fn dump() -> Vec<(String, String, String, String)> {
+        let pref_manager = PreferenceManager::get();
+        let pref_manager = pref_manager.borrow();
+        let mut result = vec![];
+        for (map_name, map) in [("user", &pref_manager.user_prefs.prefs), ("api", &pref_manager.api_prefs.prefs)] {
+            for (key, value) in map.iter() {
+                let (kind, text) = match value {
+                    Yaml::String(s) => ("string", s.clone()),
+                    Yaml::Boolean(b) => ("boolean", b.to_string()),
+                    Yaml::Integer(i) => ("integer", i.to_string()),
+                    Yaml::Real(r) => ("real", r.clone()),
+                    _ => ("other", "".to_string()),
+                };
+                result.push((map_name.to_string(), key.clone(), kind.to_string(), text));
+            }
+        }
+        result.sort();
+        return result;
+    }
+}
+
 #[cfg(test)]
 mod tests {
     #[allow(unused_imports)]
